@@ -1,33 +1,28 @@
-"""C06 (Curve.tla family)"""
+"""C06 -- preprocessing is a pure, repeatable function of raw data, steps and
+options (ApplyPre / FitPre actions of Curve.tla; clauses C06_*)."""
 import curve_check
 import world
 
 
-def slices(ctx):
-    sl = {k: world.SLICES[k] for k in ("model", "range", "pre", "alias")}
-    pairs = world.pair_slices()
-    names = sorted(pairs)
-    if ctx.tier == "quick":
-        import random
-        rng = random.Random(ctx.seed)
-        names = rng.sample(names, 6)
-    for n in names:
-        sl[n] = pairs[n]
-    return sl
-
-
 def run(ctx):
     quick = ctx.tier == "quick"
+    sl = {k: world.SLICES[k] for k in ("pre", "pre2", "model")}
     curve_check.run_engine(
-        ctx, "C06_", slices(ctx),
-        n_random=150 if quick else 1500, rand_len=30,
-        walk_limit=120 if quick else None)
+        ctx, "C06_", sl,
+        n_random=120 if quick else 1200, rand_len=30,
+        rand_weights=dict(apply=7, fit=4, set=1, rate=0.3, scan=0.1,
+                          mutate_pl=2, orphan=1),
+        walk_limit=250 if quick else None,
+        curves=("syn1", "syn2", "rec1"))
     ctx.assumptions += [
-        "fresh-object oracle: the reference for 'current' results is the "
-        "same library run once on a new object with deep-copied arguments "
-        "(metamorphic oracle for history independence)",
-        "results are compared bit-for-bit (float.hex / sha256 of columns)",
-        "stale per-point columns while no hash is exposed are not judged",
+        "data columns are compared by sha256 over force, tip position, "
+        "height (measured), height (piezo), segment, time and the set of "
+        "column names; the reference is a fresh curve with the pipeline "
+        "applied once (deep-copied arguments)",
+        "which requests must be rejected is DECLARED from the step "
+        "registry's requirement/option declarations (unknown step, required "
+        "step not earlier, option name/value outside the declared choices)",
+        "data columns after a rejected request are not constrained",
     ]
 
 
